@@ -182,6 +182,20 @@ def py_p_flaky(e, n):
     return e.a >= n
 
 
+@predicate
+def p_runs_subquery(e, n):
+    """a user predicate whose body opens a symbolic block of its own and evaluates a small query"""
+    from entity_query_language import an, entity, let, symbolic_mode
+    with symbolic_mode():
+        x = let(Ent, domain=[e])
+        q = an(entity(x, x.a >= n))
+    return len(list(q.evaluate())) == 1
+
+
+def py_p_runs_subquery(e, n):
+    return e.a >= n
+
+
 def py_p_a_ge(e, n):
     return e.a >= n
 
@@ -211,7 +225,7 @@ class BLess(Predicate):
         return self.e.b < self.f.b
 
 
-FUNC_PREDS = {"p_flaky": (p_flaky, py_p_flaky), "p_a_ge": (p_a_ge, py_p_a_ge), "p_a_lt": (p_a_lt, py_p_a_lt), "p_same_b": (p_same_b, py_p_same_b)}
+FUNC_PREDS = {"p_runs_subquery": (p_runs_subquery, py_p_runs_subquery), "p_flaky": (p_flaky, py_p_flaky), "p_a_ge": (p_a_ge, py_p_a_ge), "p_a_lt": (p_a_lt, py_p_a_lt), "p_same_b": (p_same_b, py_p_same_b)}
 CLASS_PREDS = {"IsBig": (IsBig, lambda e: e.k >= 2), "BLess": (BLess, lambda e, f: e.b < f.b)}
 
 
